@@ -81,8 +81,20 @@ def oracle_fwd_grad(ck, dims, m, J, filt, shape, chan=1):
     kk = KF_AFB if padded else (KF_PER if short else None)
     from ..gradcheck import pull_variants
     g = None
+    bad2 = []
+
+    def second(idx, us, jv):
+        # d/dg <u, J^T g> = J u
+        want2 = Jm.T @ us[0].reshape(-1)
+        got2 = flat(jv)
+        if not torch.equal(got2, want2):
+            k2 = int(torch.nonzero(got2 != want2)[0])
+            bad2.append('the pull-back differentiated once more: d<u, J^T g>/dg [%d] = %r, (J u)[%d] = %r' % (k2, float(got2[k2]), k2, float(want2[k2])))
     try:
-        for label, eff, grads in pull_variants(rng, outs, [x], lambda o: T(gen.int_tensor(rng, tuple(o.shape)))):
+        for label, eff, grads in pull_variants(rng, outs, [x], lambda o: T(gen.int_tensor(rng, tuple(o.shape))), second=second):
+            if bad2:
+                ck.fail(desc + ' [%s]' % bad2[0], replay, known_key=kk)
+                return 'diff2'
             g = grads[0] if grads[0] is not None else torch.zeros_like(x)
             want = Jm @ flat(eff)
             if not torch.equal(g.reshape(-1), want):
@@ -142,8 +154,20 @@ def oracle_inv_grad(ck, dims, m, J, filt, size, mask):
                 rows.append(inv((base[0], base[1:])).reshape(-1).clone())
                 base[i].reshape(-1)[k] = 0
             blocks[i] = torch.stack(rows)
+    bad2 = []
+    req = [i for i, t in enumerate(ins) if t.requires_grad]
+
+    def second(idx, us, jv):
+        want2 = sum(blocks[req[i]].T @ u.reshape(-1) for i, u in zip(idx, us))
+        got2 = jv[0].reshape(-1)
+        if not torch.equal(got2, want2):
+            k2 = int(torch.nonzero(got2 != want2)[0])
+            bad2.append('the pull-back differentiated once more: d<u, J^T g>/dg [%d] = %r, (J u)[%d] = %r' % (k2, float(got2[k2]), k2, float(want2[k2])))
     try:
-        for label, eff, grads in pull_variants(rng, [y], need, lambda o: T(gen.int_tensor(rng, tuple(o.shape))), repeats=3):
+        for label, eff, grads in pull_variants(rng, [y], need, lambda o: T(gen.int_tensor(rng, tuple(o.shape))), repeats=3, second=second):
+            if bad2:
+                ck.fail(desc + ' [%s]' % bad2[0], replay, known_key=kk)
+                return 'diff2'
             it = iter(grads)
             for i, t in enumerate(ins):
                 if not t.requires_grad:
